@@ -67,6 +67,7 @@ Fixpoint text (W : world) (ft : Z -> str) (lvl : nat) (v : value) {struct v} : s
   | VPeriod d => lit "XmlPeriod(" ++ dq d ++ lit ")"
   | VStd k args => lit "datetime." ++ std_name k ++ lit "(" ++ args_text (std_repr_args k args) ++ lit ")"
   | VEnum c m => join (lit ".") (snd c) ++ lit "." ++ m
+  | VFlag c z => join (lit ".") (snd c) ++ lit "(" ++ py_str_of_Z z ++ lit ")"
   | VList l => match l with [] => lit "[]" | _ => array (lit "[") (lit "]") l end
   | VTuple l => match l with [] => lit "()" | _ => array (lit "(") (lit ")") l end
   | VSet fz l =>
